@@ -63,6 +63,13 @@ func cmdRaceWork(args []string) int {
 	fs.Parse(args)
 	installRaceHooks()
 	deadline := time.Now().Add(time.Duration(*secs) * time.Second)
+	longWait := make(chan struct{})
+	if *mode == "lockmap" && *secs >= 8 {
+		go raceLockMapLongWait(longWait)
+	} else {
+		close(longWait)
+	}
+	defer func() { <-longWait }()
 	n := 0
 	for ; n < *iters && time.Now().Before(deadline) && racePanic == ""; n++ {
 		s := *seed*1_000_003 + int64(n)
@@ -196,6 +203,44 @@ func raceLockMap(seed int64) {
 	wg.Wait()
 	if n := lm.VerifLen(); n != 0 {
 		raceFail("lock map retains %d entries although no caller holds or awaits a lock", n)
+	}
+}
+
+// raceLockMapLongWait: a key is held for several seconds of real time (longer than any test of
+// the repository waits) while two callers with contexts that never end wait for it: Lock must
+// return true and Run must run its callback once the holder lets go - "false only because its
+// context ended". (A wait measured in simulated hours would need a clock seam the package does
+// not have; it has no timers of its own.)
+func raceLockMapLongWait(done chan struct{}) {
+	defer close(done)
+	lm := gcsutil.NewTransientLockMap()
+	if !lm.Lock(context.Background(), "slow") {
+		raceFail("Lock of a free key returned false")
+		return
+	}
+	var wg sync.WaitGroup
+	wg.Add(2)
+	go func() {
+		defer wg.Done()
+		if !lm.Lock(context.Background(), "slow") {
+			raceFail("Lock returned false after a long wait although its context never ended")
+			return
+		}
+		lm.Unlock("slow")
+	}()
+	go func() {
+		defer wg.Done()
+		ran := false
+		err := lm.Run(context.Background(), "slow", func(context.Context) error { ran = true; return nil })
+		if !ran {
+			raceFail("Run returned (%v) after a long wait without running its callback although its context never ended", err)
+		}
+	}()
+	time.Sleep(6500 * time.Millisecond)
+	lm.Unlock("slow")
+	wg.Wait()
+	if n := lm.VerifLen(); n != 0 {
+		raceFail("lock map retains %d entries after the long wait", n)
 	}
 }
 
